@@ -768,6 +768,19 @@ func (s *BaseNodeService) processMessage(message storage.Message) (*types.Operat
 		return nil, fmt.Errorf("failed to get FSMRequestFromMessage:  %w", err)
 	}
 
+	// a participant may speak only for itself: the participant id inside the
+	// signed payload must be the id registered for the sender of the message
+	if claimedID, ok := participantIDFromRequest(fsmReq); ok && !s.GetSkipCommKeysVerification() {
+		senderID, err := fsmInstance.GetIDByUsername(message.SenderAddr)
+		if err != nil {
+			return nil, fmt.Errorf("failed to get participant id of %s: %w", message.SenderAddr, err)
+		}
+		if senderID != claimedID {
+			return nil, fmt.Errorf("message from %s (participant %d) claims to come from participant %d",
+				message.SenderAddr, senderID, claimedID)
+		}
+	}
+
 	resp, fsmDump, err := fsmInstance.Do(fsm.Event(message.Event), fsmReq)
 	if err != nil {
 		return nil, fmt.Errorf("failed to Do operation in FSM: %w", err)
@@ -871,6 +884,31 @@ func (s *BaseNodeService) processMessage(message storage.Message) (*types.Operat
 	}
 
 	return operation, nil
+}
+
+// participantIDFromRequest returns the participant id a request claims to come from
+func participantIDFromRequest(req interface{}) (int, bool) {
+	switch r := req.(type) {
+	case requests.SignatureProposalParticipantRequest:
+		return r.ParticipantId, true
+	case requests.DKGProposalCommitConfirmationRequest:
+		return r.ParticipantId, true
+	case requests.DKGProposalDealConfirmationRequest:
+		return r.ParticipantId, true
+	case requests.DKGProposalResponseConfirmationRequest:
+		return r.ParticipantId, true
+	case requests.DKGProposalMasterKeyConfirmationRequest:
+		return r.ParticipantId, true
+	case requests.DKGProposalConfirmationErrorRequest:
+		return r.ParticipantId, true
+	case requests.SigningBatchProposalStartRequest:
+		return r.ParticipantId, true
+	case requests.SigningProposalBatchPartialSignRequests:
+		return r.ParticipantId, true
+	case requests.SignatureProposalConfirmationErrorRequest:
+		return r.ParticipantId, true
+	}
+	return 0, false
 }
 
 func (s *BaseNodeService) broadcastReconstructedSignatures(message storage.Message, sigs []fsmtypes.ReconstructedSignature) error {
